@@ -133,6 +133,13 @@ def _one(chk, fi, ex, rules):
         else:
             chk.ok("R4", {"cached_status_last_written": list(cl)}, nontrivial_key=("cache", cl))
         hf = f["hook_failed"]
+        cached_v = f["cached"]
+        if hf is True and isinstance(cached_v, EnumVal) and cached_v.name not in ("hook_error", "untested") and not (
+                f["pop_raised"] and cached_v.name == "error"):
+            chk.fail(_f("R4", fi, ex, "hook failed but cached status %s" % cached_v.name,
+                        "a hook of the scenario failed, yet the status cached at the end of run() is %s (a status read earlier, e.g. by the "
+                        "after_scenario hook itself, was cached as final and never replaced by hook_error): the scenario is reported %s "
+                        "while the run fails" % (cached_v.name, cached_v.name)))
         if isinstance(hf, Top):
             chk.fail(_f("R4", fi, ex, "hook_failed-not-reset",
                         "hook_failed of an earlier run is read/kept without being re-initialised"))
